@@ -80,7 +80,7 @@ class StairsSlicer:
         zero = (
             self._interval_index.left[0] - self._interval_index.left[0]
         )  # hack to get 0 or pd.Timedelta(0); taken from the slices: a step-free function has no step points
-        return self._slices.apply(sc.Stairs.hist, *args, **kwargs).fillna(zero)
+        return self._slices.apply(sc.Stairs.hist, args=args, **kwargs).fillna(zero)
 
     @Appender(docstrings.resample_docstring, join="\n", indents=1)
     def resample(self, func: str):
